@@ -14,6 +14,7 @@ SPEC = {
             "truncate; BufferWriter pwrite/write x2 and 34 put_*/pput_*; StringWriter 34 pput_* with offsets <=4096 or >=2^63). "
             "Cursor-past-the-end stage (own child): go(k) or the constructor offset with k in {n+1..n+4,n+7..n+9,n+15..n+17,n+63,n+64,n+4095..n+4097,2n+1,2^31,2^32,2^63-1..2^63+1,2^64-n-2..2^64-n,2^64-k (k=1..16)}, then every cursor operation (getv, get<T>, peek, 26 get_*, readx/read x2, skip, skip_if with a needle equal/unequal to the slack bytes around the buffer, get_cstr, get_line) with sizes around 0, n, the wrapped remaining() and the values making cursor+size wrap into the buffer: the outcome must be std::out_of_range or an empty/false result; a pointer, a value, bytes, a reported match, a sanitizer report or a guard-page fault is a violation keyed cursor_past_end:<family>:out-of-buffer-read. "
             "Aliasing stage (own child): a StringWriter holding n0 pattern bytes (n0 = 1..34, 47..65, 119..128, 240..256, 1000, 4096; thorough 1..300; capacity as built and shrunk to size()==capacity()) receives put<T>(ref) for 1,2,3,4,8,13,16,32,64-byte records where ref is a reference INTO its own data (StringReader(w.str()).pget<T>(off), .get<T>(), reinterpret_cast) at the first/middle/last position, write(w.str().data()+off, len) and write(w.str()); the result must be old data + a snapshot of the source taken before the call, whether or not the append reallocates (SSO->heap at 15/16, growth at exact capacity); ASan watches for the use-after-free. "
+            "Derived-views stage (own child): parents = raw exact-size and guard-paged buffers, StringReader(const string&), StringReader(shared_ptr) with a second holder, and readers that are the SOLE owner of their string (direct and through a copy), n in {1,2,8,15,16,17,24,31,32,33,64,100,256,1000,4096} (thorough +18..80); views = sub/subx 1- and 2-argument, sub_bits/subx_bits, pgetv, &pget<T>, peek, getv, &get<T> over 7 ranges; then one of 23 parent scenarios (truncate equal/smaller/0/larger/twice, go, skip, reads, typed gets, get_line/get_cstr, further subs, copy+destroy, copy+truncate either side, move, self-copy assignment, truncate followed by parent reads) or a seeded random sequence of 1..6 parent operations; afterwards every view must still read the ORIGINAL bytes of its range (in = still inside the parent, past-end = parent truncated below the view) with no sanitizer report. "
             "Histories: seeded random sequences of 1..24 ops (go inside / just past / far past the end, mixed reads, truncate, descent into "
             "sub-readers) with boundary-biased arguments. Oracle: request (off,size) on n bytes is in range iff off<=n && size<=n-off "
             "(unsigned __int128); throwing forms return exactly the slice or throw std::out_of_range, clamping forms return the in-range "
@@ -54,6 +55,9 @@ SPEC = {
         # aliasing stage: value passed by reference lives inside the growable writer's own data
         "sw.put<T>(alias):realloc:slice", "sw.put<T>(alias):in-capacity:slice", "sw.write(alias):realloc:slice",
         "sw.write(alias):in-capacity:slice", "sw.write(own str):realloc:slice",
+        # derived-views stage: sub-readers / BitReaders / pointers taken before parent operations
+        "view:parent-op:in:slice", "view:sub-reader:in:slice", "view:sub-reader:past-end:slice", "view:bit-reader:in:slice",
+        "view:bit-reader:past-end:slice", "view:pointer:in:slice", "view:pointer:past-end:slice",
         # cursor-past-the-end stage: every cursor operation was driven from go(k), k > n
         "cursor_past_end:skip_if:*", "cursor_past_end:skip:*", "cursor_past_end:getv:throw",
         "cursor_past_end:get<T>:throw", "cursor_past_end:peek:throw", "cursor_past_end:get:w1:throw", "cursor_past_end:get:w2:throw",
